@@ -54,15 +54,18 @@ impl SourcePath {
         path.canonicalize().or_else(|_| {
             let absolute = std::path::absolute(path)?;
             let mut ancestor = absolute.as_path();
-            let mut suffix = PathBuf::new();
+            let mut missing = Vec::new();
             loop {
                 if let Ok(canonical) = ancestor.canonicalize() {
-                    return Ok(canonical.join(suffix));
+                    return Ok(missing
+                        .into_iter()
+                        .rev()
+                        .fold(canonical, |path, name| path.join(name)));
                 }
                 let Some(name) = ancestor.file_name() else {
                     return Ok(absolute);
                 };
-                suffix = PathBuf::from(name).join(suffix);
+                missing.push(name);
                 let Some(parent) = ancestor.parent() else {
                     return Ok(absolute);
                 };
